@@ -11,12 +11,17 @@ session state, every batch of reports, every URR:
    counter ends at n+k;
  * `other_urr_untouched`: emitting for one URR does not move the counter of another;
  * `create_resets`: a (re-)created URR starts at 0;
- * the other `Sess` methods do not touch the counter (`bump_keeps_seqn`, `update_keeps_seqn`).
+ * the other `Sess` methods do not touch the counter (`bump_keeps_seqn`, `update_keeps_seqn`);
+ * `numbering_history` (the lifetime theorem): for EVERY history that mixes batches of reports on any of the carriers with
+   Create / Update / Remove / Query URR and Create / Update / Remove PDR operations — any driver answers, any iteration
+   order — as long as URR `u` itself is neither re-created nor removed, the UR-SEQN values emitted for `u`, in emission
+   order over the whole history, are n, n+1, n+2, … (n its counter at the start, 0 after creation), one per report.
 The uint32 wrap-around after 2^32 reports of one URR is outside the statement (the counter is a natural number).
 -/
 import UpfVerif.Model.Core
 import UpfVerif.Lemmas.Core
 import UpfVerif.Lemmas.CoreDP
+import UpfVerif.Lemmas.CoreSeq
 
 namespace UpfVerif.C11
 open UpfVerif.Core
@@ -113,6 +118,96 @@ theorem bump_keeps_seqn (us : List (Nat × URRInfo)) (u i : Nat) :
 theorem update_keeps_seqn (info : URRInfo) (ie : RuleIE) : (info.applyUpdate ie).seqn = info.seqn := by
   unfold URRInfo.applyUpdate
   cases ie.mnop <;> cases ie.meth <;> rfl
+
+/-! ### the whole lifetime -/
+
+/-- a step of a session's history: a rule operation, or a batch of usage reports emitted on a carrier
+    (`resp = false`: Session Report Request; `true`: Modification / Deletion Response) -/
+inductive HOp
+  | rule (op : SOp)
+  | emit (rs : List Report) (extra : BitVec 32) (resp : Bool)
+
+def hrun : Sess → Ctx → List HOp → Sess × Ctx × List UsarIE
+  | s, c, [] => (s, c, [])
+  | s, c, .rule op :: ops => hrun (op.apply s c).1 (op.apply s c).2 ops
+  | s, c, .emit rs x b :: ops =>
+    ((hrun (emitUsars s rs x b).1 c ops).1, (hrun (emitUsars s rs x b).1 c ops).2.1,
+     (emitUsars s rs x b).2 ++ (hrun (emitUsars s rs x b).1 c ops).2.2)
+
+/-- reports for URR `u` in the batches of a history -/
+def reportsFor (u : Nat) : List HOp → Nat
+  | [] => 0
+  | .rule _ :: ops => reportsFor u ops
+  | .emit rs _ _ :: ops => countFor u rs + reportsFor u ops
+
+/-- URR `u` is neither (re-)created nor removed in the history -/
+def Untouched (u : Nat) : List HOp → Prop
+  | [] => True
+  | .rule op :: ops => op.touches u = false ∧ Untouched u ops
+  | .emit _ _ _ :: ops => Untouched u ops
+
+def decUntouched (u : Nat) : (ops : List HOp) → Decidable (Untouched u ops)
+  | [] => isTrue trivial
+  | .rule op :: ops =>
+    match (inferInstance : Decidable (op.touches u = false)), decUntouched u ops with
+    | isTrue h1, isTrue h2 => isTrue ⟨h1, h2⟩
+    | isFalse h1, _ => isFalse fun h => h1 h.1
+    | _, isFalse h2 => isFalse fun h => h2 h.2
+  | .emit _ _ _ :: ops => decUntouched u ops
+
+instance (u : Nat) (ops : List HOp) : Decidable (Untouched u ops) := decUntouched u ops
+
+theorem seqnsFor_append (u : Nat) (a b : List UsarIE) : seqnsFor u (a ++ b) = seqnsFor u a ++ seqnsFor u b := by
+  simp [seqnsFor, List.filter_append]
+
+/-- **UR-SEQN over the lifetime of a URR**: 0, 1, 2, … in emission order, no gap, no repeat, whatever else happens to
+    the session in between -/
+theorem numbering_history (u : Nat) (ops : List HOp) : ∀ (s : Sess) (c : Ctx) (n : Nat),
+    numOf s.urrs u = some (n, false) → Untouched u ops →
+    seqnsFor u (hrun s c ops).2.2 = List.range' n (reportsFor u ops) ∧
+    numOf (hrun s c ops).1.urrs u = some (n + reportsFor u ops, false) := by
+  induction ops with
+  | nil => intro s c n h _; simp [hrun, reportsFor, seqnsFor, h]
+  | cons op ops ih =>
+    intro s c n h hu
+    cases op with
+    | rule o =>
+      simp only [hrun, reportsFor]
+      exact ih _ _ n (by rw [apply_num s c o u hu.1]; exact h) hu.2
+    | emit rs x b =>
+      simp only [hrun, reportsFor]
+      -- the URR's entry
+      obtain ⟨info, hg, hn, hr⟩ : ∃ info, alGet s.urrs u = some info ∧ info.seqn = n ∧ info.removed = false := by
+        unfold numOf at h
+        cases hg : alGet s.urrs u with
+        | none => rw [hg] at h; simp at h
+        | some info =>
+          rw [hg] at h
+          simp only [Option.map_some, Option.some.injEq, Prod.mk.injEq] at h
+          exact ⟨info, rfl, h.1, h.2⟩
+      have hb : (b && info.removed) = false := by simp [hr]
+      obtain ⟨b1, b2⟩ := batch_consecutive rs x b u s info hg hb
+      have hnum : numOf (emitUsars s rs x b).1.urrs u = some (n + countFor u rs, false) := by
+        simp [numOf, b2, hn, hr]
+      obtain ⟨i1, i2⟩ := ih (emitUsars s rs x b).1 c (n + countFor u rs) hnum hu
+      constructor
+      · rw [seqnsFor_append, b1, i1, hn]
+        rw [← List.range'_append]
+        simp
+      · rw [i2]; simp [Nat.add_assoc]
+
+/-- non-vacuity: URR 7 created, a report, a PDR naming it created, two reports in a response, its method updated, another
+    URR removed, one more report: 0, 1, 2, 3 -/
+example :
+    let ok : DpCall × DpAns := (default, { ok := true })
+    let c0 : Ctx := { pending := List.replicate 8 ok }
+    let s0 : Sess := { rnode := 0, localID := 5, remoteID := 9 }
+    let (s1, c1) := s0.createURR { id := some 7, meth := some (false, true) } c0
+    let rep : Report := { urr := 7, trig := 2, meas := [] }
+    let ops := [HOp.emit [rep] 0 false, .rule (.createPDR { id := some 1, urrs := [7] }), .emit [rep, { rep with urr := 8 }, rep] 0 true,
+                .rule (.updateURR { id := some 7, meth := some (true, true) }), .rule (.removeURR { id := some 8 }), .emit [rep] 0 false]
+    Untouched 7 ops ∧ seqnsFor 7 (hrun s1 c1 ops).2.2 = [0, 1, 2, 3] := by
+  decide
 
 /-! ### non-vacuity: three reports for URR 7 interleaved with one for URR 8, counter at 4 -/
 example :
